@@ -186,7 +186,8 @@ class Ctx:
         agg = Res()
         if parallel and env.NPROC > 1 and len(cases) > 1:
             ctx = mp.get_context("fork")
-            with ctx.Pool(min(env.NPROC, len(cases))) as pool:
+            # one fresh forked process per chunk of cases: library state (module/class-level caches) cannot leak from one case into another
+            with ctx.Pool(min(env.NPROC, len(cases)), maxtasksperchild=1) as pool:
                 for r in pool.imap(_exec_case, cases, chunksize):
                     agg.merge(r)
         else:
